@@ -328,6 +328,22 @@ class Ctx:
         os.makedirs(self.run_dir, exist_ok=True)
         os.makedirs(os.path.join(VERIF, "replays"), exist_ok=True)
         os.makedirs(os.path.join(VERIF, "evidence"), exist_ok=True)
+        # every temporary file/directory of this run (Go os.MkdirTemp, Python tempfile, child processes)
+        # lives under one per-run root that is removed when the check finishes
+        import shutil
+        troot = os.path.join(BUILD, "tmp")
+        os.makedirs(troot, exist_ok=True)
+        now = time.time()
+        for d in os.listdir(troot):
+            full = os.path.join(troot, d)
+            try:
+                if d.startswith(prop + "-") and now - os.path.getmtime(full) > 3 * 3600:
+                    shutil.rmtree(full, ignore_errors=True)
+            except OSError:
+                pass
+        self.tmp_root = os.path.join(troot, "%s-%d" % (prop, os.getpid()))
+        os.makedirs(self.tmp_root, exist_ok=True)
+        os.environ["TMPDIR"] = self.tmp_root
         self.violations = []      # (replay_path, text, no_failing_input)
         self.known = []
         self.notes = []
@@ -417,6 +433,11 @@ class Ctx:
                   wall_s=round(time.time() - self.t0, 2), violations=len(self.violations))
         with open(os.path.join(VERIF, "evidence", "%s.json" % self.prop), "w") as f:
             json.dump(ev, f, indent=1)
+        try:
+            import shutil
+            shutil.rmtree(self.tmp_root, ignore_errors=True)
+        except Exception:
+            pass
         if self.violations:
             sys.exit(1)
         log("OK property=%s tier=%s seed=%d wall=%.1fs" % (self.prop, self.tier, self.seed, time.time() - self.t0))
